@@ -15,6 +15,9 @@ WITNESSES = ['C16RtIsPrivate', 'C06ModelNeedsFn', 'C06ModelNeedsSendSync']
 
 
 def run(ctx):
+    from . import guardvocab
+    guardvocab.G2(ctx, scopes=('rt::thread::Set::clear', 'rt::execution::Execution::step', 'rt::lazy_static::Set::reset', 'rt::execution::Execution::new'))
+    guardvocab.G3(ctx, scopes=('rt::thread::Set::clear', 'rt::execution::Execution::step', 'rt::lazy_static::Set::reset', 'rt::execution::Execution::new'))
     modelrules.I1(ctx)
     modelrules.I2(ctx)
     modelrules.I3(ctx)
